@@ -68,6 +68,56 @@ def _derive_stack_attr(ctx) -> str:
     return STACK_ATTR
 
 
+def r14_9(ctx, end: str) -> None:
+    """aclose() unwinds what is registered - every time: close a stack whose exit fails (the failure propagates, as it
+    must), register something new, close again.  The new exit runs."""
+    ctx.rule("R14.9", "aclose(): a stack can be closed again after a close that ended with an exception - exits registered in "
+                      "between run (no state of the stack outlives a failing unwind)")
+    cls = ctx.pkg.cls("contextlib.ExitStack")
+    u = cls.methods.get("aclose")
+    init = cls.methods.get("__init__")
+    if u is None or init is None:
+        ctx.note("R14.9: ExitStack.aclose / __init__ not found; not evaluated")
+        return
+    me = u.param_names()[0]
+    for first in ("R", "F", "T"):
+        ops = _UnwindOps({"CB1": first, "CB2": "F"})
+        env0 = {init.param_names()[0]: "SELF", "@conts": {0: ()}, "@field": 0, "@trace": ()}
+        try:
+            o0 = Machine(cfg_of(init), ops, resolver=make_resolver(ctx, init, ops)).run(env0)
+        except AnalysisError:
+            o0 = []
+        fields = {k: v for oc in o0[:1] for k, v in oc.env.items() if k.startswith("@f:")}
+        env1 = dict(fields)
+        env1.update({me: "SELF", "@conts": {0: ("CB1",)}, "@field": 0, "@trace": ()})
+        try:
+            o1 = Machine(cfg_of(u), ops, resolver=make_resolver(ctx, u, ops, skip=("_stitch_context",), coroutines=True)).run(env1)
+        except AnalysisError:
+            o1 = []
+        if len(o1) != 1:
+            ctx.note(f"R14.9: [first exit {first}] the first close is not evaluable over the model ({len(o1)} outcomes)")
+            continue
+        ctx.count("reclose_cells")
+        env2 = {k: v for k, v in o1[0].env.items() if k.startswith("@f:")}
+        env2.update({me: "SELF", "@conts": {0: ("CB2",)}, "@field": 0, "@trace": ()})
+        try:
+            o2 = Machine(cfg_of(u), ops, resolver=make_resolver(ctx, u, ops, skip=("_stitch_context",), coroutines=True)).run(env2)
+        except AnalysisError:
+            o2 = []
+        ran = bool(o2) and all(any(e[0] == "CB2" for e in oc.env.get("@trace", ())) for oc in o2)
+        how = {"R": "raised", "F": "returned a false value", "T": "suppressed"}[first]
+        ctx.check(ran, "R14.9", u, "aclose", f"[a first aclose() whose exit {how}; a new exit registered; aclose() again] the new exit runs",
+                  witness=f"state after the first close: {sorted((k[3:], str(v)) for k, v in env2.items() if k.startswith('@f:'))}")
+
+
+def r14_8(ctx) -> None:
+    from . import c03
+    from .common import Relabel
+    ctx.rule("R14.8", "callback(cb, *args, **kwargs): the awaitified callback still takes the keyword arguments it was registered "
+                      "with (R03.13, shared)")
+    c03.r03_13(Relabel(ctx, "R14.8"), "R14.8")
+
+
 def run(ctx) -> None:
     ctx.rule("R14.1", "all registrations at one end; unwind from that end")
     ctx.rule("R14.2", "abstract evaluation of __aexit__ vs nested-with reference model")
@@ -79,10 +129,12 @@ def run(ctx) -> None:
                "popleft() removes left, reversed()/iteration do not remove")
     end = r14_1(ctx)
     r14_2(ctx, end)
+    r14_9(ctx, end)
     r14_4(ctx)
     r14_5(ctx)
     r14_6(ctx)
     r14_7(ctx)
+    r14_8(ctx)
     ctx.floor("registration_sites", 3)
     ctx.floor("unwind_scenarios", 312)
 
@@ -177,6 +229,8 @@ class _UnwindOps:
             return ("CONT", env["@field"])
         if name == "__traceback__" and isinstance(value, str):
             return ("tb", value)
+        if value == "SELF" and ("@f:" + name) in env:
+            return env["@f:" + name]  # any other field the stack keeps (state of its own)
         if value == "SELF":
             return ("method", name)
         return UNKNOWN
@@ -187,6 +241,8 @@ class _UnwindOps:
                 env["@field"] = value[1]
             else:
                 env["@field"] = self._new(env, ())[1]
+        elif isinstance(target, ast.Attribute) and ev.eval(target.value, env) == "SELF":
+            env["@f:" + target.attr] = value
 
     def truth(self, v, env):
         if self._is_cont(v):
